@@ -7,7 +7,7 @@
 From Coq Require Import List Ascii String ZArith NArith Bool Lia.
 From Shexer Require Import Lib.PyStr Lib.Dict Gen.Consts Spec.Rdf Model.Tracker Model.Profiler
      Model.Tokens Model.Freq Model.Shexing Model.SerialShexc Model.Run Model.MinIri Model.Examples
-     Model.RunDecor Model.DecorDom Spec.DecorSpec Spec.MinIriSpec Proofs.ExamplesProofs.
+     Model.RunDecor Model.DecorDom Spec.DecorSpec Spec.MinIriSpec Proofs.ExamplesProofs Proofs.ExamplesComplete.
 Import ListNotations.
 
 (** ** strings *)
@@ -300,7 +300,8 @@ Proof.
   destruct (dget d (sh_class sh)) as [e|].
   - destruct (e_example e).
     + intros H; injection H as <-. right. eexists; reflexivity.
-    + destruct (z_ns z); [|discriminate]. intros H; injection H as <-. right. eexists; reflexivity.
+    + destruct c_example_none_guard; [intros H; injection H as <-; left; reflexivity|].
+      destruct (z_ns z); [|discriminate]. intros H; injection H as <-. right. eexists; reflexivity.
   - destruct (z_ns z); [|discriminate]. intros H; injection H as <-. right. eexists; reflexivity.
 Qed.
 
@@ -678,25 +679,61 @@ Proof.
   injection S as ->. destruct (stem (instances_of ins (sh_class sh))); reflexivity.
 Qed.
 
+(** the modes for which [_serialize_example] prints are the modes for which the
+    profiler records shape examples (two lists of the source, one in
+    shex_serializer.py and one in class_profiler.py) *)
+Lemma in_modes_shape_wants mode :
+  in_modes mode c17d_modes_shape_example = true -> wants_shape_examples mode = true.
+Proof.
+  destruct mode as [m|]; [|discriminate]. unfold wants_shape_examples.
+  change (in_modes (Some m) c17d_modes_shape_example)
+    with (str_eqb m c_ALL_EXAMPLES || (str_eqb m c_SHAPE_EXAMPLES || false)).
+  intros H. apply orb_true_iff in H. apply orb_true_iff. destruct H as [H | H].
+  - now right.
+  - left. apply orb_true_iff in H. destruct H as [H | H]; [exact H | discriminate].
+Qed.
+
+(** Three cases: the mode prints no shape examples; the example is an instance
+    of the class; or -- only with the [candidate is None] guard of
+    [_serialize_example] ([c_example_none_guard]; without it this case is the
+    AttributeError of C17-F4) -- nothing is printed and the class has no
+    instance at all (Proofs/ExamplesComplete.v). *)
 Theorem printed_example_from_data c dmi mode g ins d z sh ex :
   run_decor_data c dmi mode g = Some (ins, d) -> z_ns z <> [] ->
   example_text z {| d_dmi := dmi; d_mode := mode; d_inverse := r_inverse c |} d sh = inl ex ->
   (in_modes mode c17d_modes_shape_example = false /\ ex = []) \/
+  (c_example_none_guard = true /\ (forall x, ~ is_instance ins (sh_class sh) x) /\ ex = []) \/
   exists x, is_instance ins (sh_class sh) x /\
             ex = c17d_inst_pre ++ iri_or_prefixed (z_ns z) x ++ c17d_inst_post.
 Proof.
   intros H Hns. destruct (run_decor_data_inv _ _ _ _ _ _ H) as (_ & d0 & C & E & Hd & _).
   unfold example_text. cbn [d_mode].
-  destruct (in_modes mode c17d_modes_shape_example); [|intros X; injection X as <-; left; split; reflexivity].
+  destruct (in_modes mode c17d_modes_shape_example) eqn:M; [|intros X; injection X as <-; left; split; reflexivity].
   assert (S : shape_example d (sh_class sh) = shape_example d0 (sh_class sh)).
   { destruct Hd as [-> | ->]; [reflexivity | apply complete_example]. }
   unfold shape_example in S.
   destruct (dget d (sh_class sh)) as [e|].
   - destruct (e_example e) as [cand|].
-    + intros X; injection X as <-. right. exists cand. split; [|reflexivity].
+    + intros X; injection X as <-. right. right. exists cand. split; [|reflexivity].
       apply (shape_example_sound dmi mode (r_inverse c) ins g d0 _ _ E). unfold shape_example. rewrite <- S. reflexivity.
-    + destruct (z_ns z); [congruence | discriminate].
+    + destruct c_example_none_guard.
+      * intros X; injection X as <-. right. left. split; [reflexivity|]. split; [|reflexivity].
+        apply (shape_example_none_no_instance dmi mode (r_inverse c) ins g d0 _ E (in_modes_shape_wants _ M)).
+        unfold shape_example. symmetry. exact S.
+      * destruct (z_ns z); [congruence | discriminate].
   - destruct (z_ns z); [congruence | discriminate].
+Qed.
+
+(** with the guard, [_serialize_example] cannot raise for a class the
+    dictionary knows (every class of [_class_counts] is: [complete_features]) *)
+Lemma example_text_total_guard z dc d sh :
+  c_example_none_guard = true -> dget d (sh_class sh) <> None ->
+  exists ex, example_text z dc d sh = inl ex.
+Proof.
+  intros G N. unfold example_text. rewrite G.
+  destruct (in_modes (d_mode dc) c17d_modes_shape_example); [|eauto].
+  destruct (dget d (sh_class sh)) as [e|]; [|congruence].
+  destruct (e_example e); eauto.
 Qed.
 
 (** the value printed for a constraint: the stored example, passed through
